@@ -1,6 +1,6 @@
 (* C07 - The parser accepts exactly what the protocol allows and reports it faithfully. *)
 From Coq Require Import ZArith NArith String List Bool.
-From Sidetree Require Import Json.Json Sidetree.Protocol Sidetree.Window Sidetree.Parser.
+From Sidetree Require Import Json.Json Json.Parse Sidetree.Protocol Sidetree.Window Sidetree.Parser Sidetree.Rules.
 Import ListNotations.
 Open Scope string_scope.
 
@@ -30,3 +30,48 @@ Theorem C07_deactivate_suffix_bound : forall cfg t m batch p,
   exists sx sd, parse_signed_deactivate cfg sd = Some sx /\ sx_suffix sx = p_suffix p.
 Proof. exact deactivate_suffix_bound. Qed.
 Print Assumptions C07_deactivate_suffix_bound.
+
+(* Outside batch mode a request is accepted if and only if it obeys the configured protocol.
+   [obeys] (Sidetree/Rules.v) is the declarative rule set, one named proposition per clause of
+   the property: hash_rule, headers_rule, signing_key_rule, nonce_rule, delta_rule,
+   common_rule, signed_data_rule, and per operation type create_rules / update_rules /
+   recover_rules / deactivate_rules (reveal value matches the signing key, next commitments
+   differ from each other and from the current key's, deactivate's signed suffix equals the
+   request's, validators consulted with the signed window / origin).  The right-hand side also
+   fixes what is reported: [p] is determined by the request. *)
+Theorem C07_accept_iff_rules : forall cfg u n o t bytes p,
+  parse_operation cfg u n o t bytes false = Some p <->
+  (Z.of_nat (String.length bytes) <= P_MaxOperationSize cfg)%Z /\
+  exists m, parse_json bytes = Some (JObj m) /\ obeys cfg u n o t m p.
+Proof. exact accept_iff_rules. Qed.
+Print Assumptions C07_accept_iff_rules.
+
+Theorem C07_update_accept_iff : forall cfg u n t m p, parse_update cfg u n t m false = Some p <-> update_rules cfg u n t m p.
+Proof. exact update_accept_iff. Qed.
+Print Assumptions C07_update_accept_iff.
+
+Theorem C07_recover_accept_iff : forall cfg u n o t m p, parse_recover cfg u n o t m false = Some p <-> recover_rules cfg u n o t m p.
+Proof. exact recover_accept_iff. Qed.
+Print Assumptions C07_recover_accept_iff.
+
+Theorem C07_deactivate_accept_iff : forall cfg t m p, parse_deactivate cfg t m false = Some p <-> deactivate_rules cfg t m p.
+Proof. exact deactivate_accept_iff. Qed.
+Print Assumptions C07_deactivate_accept_iff.
+
+Theorem C07_create_accept_iff : forall cfg u n o m p, parse_create cfg u n o m false = Some p <-> create_rules cfg u n o m p.
+Proof. exact create_accept_iff. Qed.
+Print Assumptions C07_create_accept_iff.
+
+(* the atomic rules say what the property says *)
+Theorem C07_hash_rule : forall cfg mh, validate_multihash cfg mh = true <->
+  (Z.of_nat (String.length mh) <= P_MaxOperationHashLength cfg)%Z /\ exists c, Hashing.mh_code mh = Some c /\ In c (algs cfg).
+Proof. exact validate_multihash_iff. Qed.
+Print Assumptions C07_hash_rule.
+
+Theorem C07_headers_rule : forall cfg h, validate_headers cfg h = true <-> headers_rule cfg h.
+Proof. exact validate_headers_iff. Qed.
+Print Assumptions C07_headers_rule.
+
+Theorem C07_delta_rule : forall cfg u n od, validate_delta cfg u n od = true <-> delta_rule cfg u n od.
+Proof. exact validate_delta_iff. Qed.
+Print Assumptions C07_delta_rule.
